@@ -92,6 +92,13 @@ def gen_entries(rng, cfg, n):
         vals = [build.draw_value(rng, p, inside_only=inside_bias and rng.random() < 0.8) for p in pools]
         w = build.draw_weight(rng, cfg["weights"])
         entries.append([vals[0] if len(axes) == 1 else vals, w])
+    if n and rng.random() < 0.12:
+        # infinite values are values: below / above every bin
+        for _ in range(rng.randint(1, 2)):
+            vals = [build.draw_value(rng, p) for p in pools]
+            vals[rng.randrange(len(vals))] = rng.choice([math.inf, -math.inf])
+            entries.insert(rng.randrange(len(entries) + 1),
+                           [vals[0] if len(axes) == 1 else vals, build.draw_weight(rng, cfg["weights"])])
     if n and rng.random() < (0.25 if cfg.get("nan_mode") != "keep" else 0.9):
         for _ in range(rng.randint(1, 3)):
             vals = [build.draw_value(rng, p) for p in pools]
@@ -110,7 +117,7 @@ def is_nan_entry(e):
 
 def gen_deliveries(rng, mode, idxs, entries, ndim, first_epoch, keep_missed, max_chunk=8, keep_nan=False):
     """Ops (without replica id) that deliver entry indices `idxs` to one replica."""
-    conts = ["list", "ndarray", "tuple", "iter"] if ndim == 1 else ["list", "ndarray", "columns"]
+    conts = ["list", "ndarray", "tuple", "iter", "series"] if ndim == 1 else ["list", "ndarray", "columns"]
     has_nan = any(is_nan_entry(entries[i]) for i in idxs)
     if mode == "batch":
         if keep_nan and has_nan:
@@ -119,7 +126,8 @@ def gen_deliveries(rng, mode, idxs, entries, ndim, first_epoch, keep_missed, max
         if first_epoch and (ndim == 1 or keep_missed):
             vias = {1: ["h1"], 2: ["h", "h2"], 3: ["h", "h3", "h3cols"]}[ndim]
             return [{"op": "construct", "idx": list(idxs), "via": rng.choice(vias),
-                     "cont": rng.choice(["list", "ndarray"]), "mem": rng.choice(build.MEM_MODES)}]
+                     "cont": rng.choice(["list", "ndarray"] + (["series"] if ndim == 1 else [])),
+                     "mem": rng.choice(build.MEM_MODES)}]
         return [{"op": "fill_n", "idx": list(idxs), "cont": rng.choice(conts), "mem": rng.choice(build.MEM_MODES)}]
     order = list(idxs)
     rng.shuffle(order)
@@ -244,6 +252,11 @@ def batch_data(entries, idxs, ndim, cont, wdtype=None):
         # (weights beyond 2**31 travel as floats: their squares are in range, sums of them in int64 are not)
         all_int = all(isinstance(e[1], int) and e[1] < 2 ** 31 for e in entries if e[1] is not None)
         weights = np.asarray(weights, dtype=np.int64 if all_int else np.float64)
+    if cont == "series" and weights is not None and len(weights):
+        import pandas as pd
+
+        weights = pd.Series(np.asarray(weights))
+        return data, weights
     if wdtype and weights is not None and len(weights):
         weights = np.asarray(weights, dtype=np.dtype(wdtype))  # also for list containers: a typed array
     return data, weights
